@@ -14,6 +14,12 @@ Theorem C09_holds : forall c, valid c -> holds c (run_transfer_case c) = [].
 Proof. intros c H. unfold holds. rewrite monitor_accepts by exact H. reflexivity. Qed.
 Print Assumptions C09_holds.
 
+(* the driver reports for every evaluated case whether it satisfies the hypotheses of the theorems
+   (flag `covered` of Tftp.Entries.tftp_entry): where the flag is 1 the theorem above applies *)
+Theorem C09_covered_cases : forall c, validb c = true -> holds c (run_transfer_case c) = [].
+Proof. intros c H. apply C09_holds. apply validb_valid. exact H. Qed.
+Print Assumptions C09_covered_cases.
+
 (* the behaviour before the repair of D5 (ErrorCode(n) for n > 8 escaping decode_error)
    reaches the internal-error path on an ERROR packet with code 9 *)
 Definition d5_case : tcase :=
